@@ -16,6 +16,7 @@ double verif_inst(std::vector<int>& v, const std::vector<int>& cv, std::vector<i
 }
 '''
 TUS = {'rt': dict(src=INST, filter='bpp::RandomTools'),
+       'rtc': dict(src='#include "/repo/src/Bpp/Numeric/Random/RandomTools.cpp"\n', filter='bpp::RandomTools', flags=['-I/repo/src/Bpp/Numeric/Random', '-I/repo/src']),
        'gd': dict(src=INST, filter='bpp::GaussianDiscreteDistribution')}
 VI = 'std::vector<int>'
 GD = 'bpp::GaussianDiscreteDistribution'
@@ -23,12 +24,12 @@ CFG = dict(
     types={'std::normal_distribution<double>': 'Dist', 'std::gamma_distribution<double>': 'Dist', 'std::exponential_distribution<double>': 'Dist',
            'std::uniform_real_distribution<double>': 'Dist', 'std::uniform_int_distribution<unsigned long>': 'DistU',
            'std::mersenne_twister_engine<unsigned long, 32, 624, 397, 31, 2567483615, 11, 4294967295, 7, 2636928640, 15, 4022730752, 18, 1812433253>': 'Rng',
-           'std::mt19937': 'Rng', 'std::vector<unsigned long>': 'IdxVec'},
+           'std::mt19937': 'Rng', 'std::vector<unsigned long>': 'IdxVec', 'vector<size_t>': 'IdxVec', 'vector<unsigned long>': 'IdxVec', 'std::vector<size_t>': 'IdxVec'},
     plain=set(),
     rename={('ctor', 'std::normal_distribution<double>', 2): 'Dist__normal', ('ctor', 'std::gamma_distribution<double>', 2): 'Dist__gamma',
             ('ctor', 'std::exponential_distribution<double>', 1): 'Dist__exponential', ('ctor', 'std::uniform_real_distribution<double>', 2): 'Dist__uniform',
             ('ctor', 'std::uniform_int_distribution<unsigned long>', 2): 'DistU__uniform'},
-    free={('sqrt', 1): 'verif_sqrt', ('iota', 3): 'verif_iota', ('shuffle', 3): 'verif_shuffle',
+    free={('sum', 1): 'verif_vsum', ('sqrt', 1): 'verif_sqrt', ('iota', 3): 'verif_iota', ('shuffle', 3): 'verif_shuffle',
           ('giveRandomNumberBetweenZeroAndEntry', 1): 'RandomTools__giveRandomNumberBetweenZeroAndEntry',
           ('giveIntRandomNumberBetweenZeroAndEntry', 1): 'RandomTools__giveIntRandom',
           ('randGaussian', 2): 'RandomTools__randGaussian',
@@ -87,6 +88,12 @@ double __CPROVER_uninterpreted_sqrt(double);
 static inline double verif_sqrt(double x) { return __CPROVER_uninterpreted_sqrt(x); }
 '''
 PRELUDE = r'''
+#ifdef VERIF_MODE_BOUNDED
+/* VectorTools::sum: left fold from 0 */
+static inline double verif_vsum(const Vec_double *v) { double s = 0; for (unsigned long i = 0; i < VEC_BCAP; ++i) if (i < v->n) s += v->d[i]; return s; }
+#else
+double verif_vsum(const Vec_double *v);
+#endif
 #define VOBJ(v) (__CPROVER_is_fresh(v, sizeof(*(v))) && VEC_FRESH(v))
 #ifndef VERIF_MODE_BOUNDED
 static inline void verif_iota(IdxVec *first, IdxVec *last, int start) { }        /* iota(begin, end, 0): every element is its index, hence below n */
@@ -146,6 +153,10 @@ FUNCS = [
          ensures=['verif_exc == 0', '__CPROVER_return_value < w->n'], assigns=GH,
          loops={1: dict(assigns='pos', invariant=['pos <= w->n - 1'], decreases='w->n - pos')}),
 ]
+FUNCS += [
+    # body only (bounded runs with machine floating point: the rounding of the cumulated probabilities is the point)
+    dict(cname='RandomTools__randMultinomial', qname=RT + 'randMultinomial', uf_ops={}),
+]
 LEMMAS = [
     dict(id='l_GaussianDiscreteDistribution_randC', kind='lemma', entry='h', replace=['RandomTools__randGaussian'], bodies=['GaussianDiscreteDistribution__randC'],
          doc='GaussianDiscreteDistribution::randC draws with mean mu and variance sigma^2 (the variance argument of randGaussian is a variance)',
@@ -158,12 +169,12 @@ void h(void) { GaussianDiscreteDistribution g; g.mu_ = nondet_double(); g.sigma_
   __CPROVER_assert(0, "verif_canary reachable after call"); }
 '''),
 ]
-REPLAY = {'p_RandomTools__randExponential': dict(adapter='c18_conv.cpp'), 'p_RandomTools__randGamma2': dict(adapter='c18_conv.cpp'),
+REPLAY = {'re:^b_randMultinomial': dict(adapter='c18_multinomial.cpp'), 'p_RandomTools__randExponential': dict(adapter='c18_conv.cpp'), 'p_RandomTools__randGamma2': dict(adapter='c18_conv.cpp'),
           'l_GaussianDiscreteDistribution_randC': dict(adapter='c18_gauss.cpp')}
 TRUSTED = ['the laws of libstdc++\'s <random> distributions and of the Mersenne twister (assumed; only the parameters handed to them are decided)',
            'std::iota / std::shuffle by contract (shuffle permutes in place)', 'sqrt uninterpreted']
 ASSUMPTIONS = ['weights vectors of length >= 1 for pickFromCumSum (quantifier of C18)']
-NOT_DECIDED = ['goodness of fit of any sampler, seeding / reproducibility of the stream, getPValue in [0,1], weighted picks, randMultinomial, randBeta (quantile of a uniform draw)']
+NOT_DECIDED = ['goodness of fit of any sampler, seeding / reproducibility of the stream, getPValue in [0,1], weighted picks, randBeta (quantile of a uniform draw), contingency tables']
 
 # ---- bounded: multiset facts of picks and samples ------------------------------------------------------------------------
 PRELUDE += r'''
@@ -202,8 +213,24 @@ void h(void) { Vec_int v; v.d = (int*)verif_new_array(VEC_BCAP, sizeof(int)); v.
       for (int x = 0; x <= 2; ++x) __CPROVER_assert(cnt(v.d, v.n, x) + (x == e ? 1 : 0) == cnt(in_v, NIN, x), "without replacement exactly one occurrence of the pick is removed"); } }
   __CPROVER_assert(0, "verif_canary reachable after call"); }
 '''
+H_MULTI = r'''
+double in_p[K + 1]; double in_r;
+void h(void) { Vec_double probs; probs.d = (double*)verif_new_array(VEC_BCAP, sizeof(double)); probs.n = K; _Bool some = 0;
+  for (unsigned long i = 0; i < K; ++i) { in_p[i] = nondet_double(); __CPROVER_assume(in_p[i] == 0.0 || (in_p[i] >= 0.001 && in_p[i] <= 1000.0)); if (in_p[i] > 0) some = 1; probs.d[i] = in_p[i]; }
+  __CPROVER_assume(some); verif_exc = 0;
+  IdxVec sample = RandomTools__randMultinomial(1, &probs);
+  __CPROVER_assert(verif_exc == 0 && sample.n == 1, "one draw is returned");
+  __CPROVER_assert(sample.d[0] < K, "a multinomial draw is one of the classes");
+  __CPROVER_assert(sample.d[0] >= K || in_p[sample.d[0]] > 0, "a class of probability zero is never drawn");
+  __CPROVER_assert(0, "verif_canary reachable after call"); }
+'''
 def generate_jobs(unit, tier):
     jobs = []
+    for k in (1, 2, 3) + ((4,) if tier == 'thorough' else ()):
+        jobs.append(dict(id='b_randMultinomial_k%d' % k, kind='bounded', mode='bounded', entry='h', bodies=['RandomTools__giveRandomNumberBetweenZeroAndEntry', 'RandomTools__randMultinomial'], harness=H_MULTI,
+                         unwind=k + 3, timeout=1500, defs='#define K %d\n#define VEC_BCAP %d\n' % (k, k + 1),
+                         bound='%d classes, each probability 0 or in [0.001, 1000] (not normalised), one draw; machine floating point; the uniform variate is any double of [0, 1)' % k,
+                         doc='randMultinomial returns a class index, never a class of probability zero'))
     bodies = ['RandomTools__giveIntRandom', 'RandomTools__pickOne_c', 'RandomTools__pickOne', 'RandomTools__getSample']
     nmax = 4 if tier == 'thorough' else 3
     for nin in range(0, nmax + 1):
